@@ -70,12 +70,23 @@ TEMPLATES = {
     "units": ("a = 1 <m", "s>\nEND\n"),
     "between": ("a = 1\n", "\nb = 2\nEND\n"),
     "after_lexeme": ("a = 1\nb = 2", "\nEND\n"),
+    # around block statements, inside a sequence, after a delimiter
+    "after_endgroup": ("GROUP = g\na = 1\nEND_GROUP", "\nb = 2\nEND\n"),
+    "after_endgroup_sp": ("GROUP = g\na = 1\nEND_GROUP ", "\nb = 2\nEND\n"),
+    "after_endname": ("OBJECT = g\na = 1\nEND_OBJECT = g", "\nb = 2\nEND\n"),
+    "after_begin": ("GROUP", " = g\na = 1\nEND_GROUP\nb = 2\nEND\n"),
+    "after_blockname": ("GROUP = g", "\na = 1\nEND_GROUP\nb = 2\nEND\n"),
+    "in_seq": ("a = (1,", " 2)\nb = 2\nEND\n"),
+    "after_delim": ("a = 1;", "b = 2\nEND\n"),
     "after_end": ("a = 1\nEND\n", ""),
     "after_end_far": ("a = 1\nEND\nxyz ", " tail"),
 }
 LEXEME_START = {"first": 0, "name": 0, "unquoted": 4, "quoted": 4, "comment": 0, "units": 6, "between": 6,
-                "after_lexeme": 10, "after_end": 0, "after_end_far": 0}
+                "after_lexeme": 10, "after_end": 0, "after_end_far": 0,
+                "after_endgroup": 16, "after_endgroup_sp": 16, "after_endname": 30, "after_begin": 0, "after_blockname": 8,
+                "in_seq": 6, "after_delim": 5}
 WS = " \t\n\r\v\f"
+LISTMODS = ("first", "name", "after_begin", "after_blockname", "after_delim", "after_endname")
 
 
 class Enforce(Harness):
@@ -120,6 +131,19 @@ class Enforce(Harness):
             return ws, [("a", 1), ("b", 2)]
         if p in ("after_end", "after_end_far"):
             return True, [("a", 1)]
+        col = L.collections
+        Gc, Oc = col.PVLGroup, col.PVLObject
+        if p in LISTMODS:
+            from .common import list_classes
+            _, Gc, Oc = list_classes(L)
+        if p in ("after_endgroup", "after_endgroup_sp", "after_begin", "after_blockname"):
+            return ws, [("g", Gc([("a", 1)])), ("b", 2)]
+        if p == "after_endname":
+            return ws, [("g", Oc([("a", 1)])), ("b", 2)]
+        if p == "in_seq":
+            return ws, [("a", [1, 2]), ("b", 2)]
+        if p == "after_delim":
+            return ws, [("a", 1), ("b", 2)]
         raise KeyError(p)
 
     def prop_fn(self, L, inp):
@@ -127,9 +151,9 @@ class Enforce(Harness):
         pre, post = TEMPLATES[self.pos]
         doc = pre + c + post
         i = len(pre)
-        dia = dialect(L, self.dialect, listmods=self.pos in ("first", "name"))
+        dia = dialect(L, self.dialect, listmods=self.pos in LISTMODS)
         o = ordz(c)
-        before_end = not self.pos.startswith("after_end")
+        before_end = self.pos not in ("after_end", "after_end_far")
         must_fail = zand([before_end, znot(spec_allowed(self.dialect, o))])
         must_succeed, items = self.expected(L, c)
         must_succeed = zand([must_succeed, znot(must_fail)])
@@ -145,6 +169,9 @@ class Enforce(Harness):
                 0 <= pos, pos <= len(doc),
             ])
             where = zimp(must_fail, zand([LEXEME_START[self.pos] <= pos, pos <= i + 1, int_eq(e.lineno, line_of_i)]))
+            if self.dialect in ("Omni", "ISIS"):
+                # OmniParser removes dash continuations from the text before lexing: positions refer to that text
+                cons = True
             return Outcome("LexerError", zand([znot(must_succeed), cons, where]),
                            {"pos": e.pos, "lineno": e.lineno, "colno": e.colno})
         except L.exceptions.ParseError:
